@@ -397,6 +397,8 @@ class Session:
         self.world = doc["world"]
         self.cfg = doc["cfg"]
         self.trace = [tuple(p) for p in doc["trace"]]
+        self.trace2 = [tuple(p) for p in doc.get("trace2") or []]
+        self.cur_trace = self.trace      # the trace the matcher currently holds
         self.faults = doc.get("faults") or {}
         self.backend_kind = doc.get("backend", "inmem")
         self.log_level = log_level or doc.get("log", "ERROR")
@@ -486,12 +488,14 @@ class Session:
                     self._new_matcher(self._current_width())
                     m = self.matcher
                 k = op["k"]
-                out.ret = m.match(list(self.trace[:k]), unique=unique)
+                if kind in ("match", "fresh"):
+                    self.cur_trace = self.trace2 if op.get("alt") else self.trace
+                out.ret = m.match(list(self.cur_trace[:k]), unique=unique)
                 self.k, self.unique = k, unique
                 self.jumped = False
             elif kind == "extend":
                 k = op["k"]
-                out.ret = m.match(list(self.trace[:k]), unique=unique, expand=True)
+                out.ret = m.match(list(self.cur_trace[:k]), unique=unique, expand=True)
                 self.k, self.unique = k, unique
             elif kind == "widen":
                 out.ret = m.increase_max_lattice_width(op["w"], unique=unique)
@@ -500,7 +504,7 @@ class Session:
                 self.jumped = True
                 m.continue_with_distance(k=op.get("kbest", 2), nb_obs=op.get("nb_obs", 2),
                                          max_dist=op.get("max_dist"))
-                out.ret = m.match(list(self.trace[:self.k]), unique=unique, expand=True)
+                out.ret = m.match(list(self.cur_trace[:self.k]), unique=unique, expand=True)
             else:
                 raise ValueError(kind)
         except BaseException as exc:  # noqa: B902 - KeyboardInterrupt is an injected fault kind
